@@ -18,7 +18,8 @@ BUDGET = {"quick": (3000, 35), "thorough": (800_000, 540)}
 RULE = ("lists of 1-4 metric definitions (COUNTER/GAUGE/HISTOGRAM/SUMMARY; name, namespace/help/unit present or "
         "absent; 0-3 labels static (str/int/bool/float) or expression; value expression numeric, non-numeric, failing "
         "or absent) x 0-3 recording processors, optionally the first one attached after k hits x 2-8 hits x fire_count "
-        "in {1,2,-1} x service or register_tracepoint; non-trivial = at least one metric call compared; distinct = "
+        "in {1,2,-1} x service or register_tracepoint; arm race: two threads hitting two different metric tracepoints at "
+        "once under line-level schedules (every processor gets every report); non-trivial = at least one metric call compared; distinct = "
         "distinct (definitions, processors, rows) keys")
 COMPONENTS = {"real": ["whole Deep agent", "grpc metric-definition converter"],
               "stub": ["threads/clock/executor", "gRPC channel + DEEP service", "recording MetricProcessors"]}
@@ -36,8 +37,26 @@ LABEL_EXPRS = ("name", "i", "person.name", "flag", "data['k']", "nosuch", "G_HOS
 STATICS = (["s", "blue"], ["i", 7], ["b", True], ["d", 2.5], ["s", ""])
 
 
+RACE_SRC = '''
+def fa(n):
+    a = n + 1
+    probe()
+    return a
+
+def fb(n):
+    b = n + 2
+    probe()
+    return b
+'''
+
+
 def generate(seed, tier):
     r = random.Random(seed)
+    if r.random() < 0.2:
+        # arm "race": two threads hit two different metric tracepoints at once (first use after start), with a
+        # pre-emption point at every line of the configuration service and the handler (mode D)
+        return {"arm": "race", "nproc": r.choice((1, 2, 3, 4)), "reps": r.choice((1, 2)),
+                "knobs": common.race_knobs(r, stall_p=0.0, p_switch=r.choice((0.05, 0.15, 0.4)))}
     defs = []
     for di in range(r.randrange(1, 5)):
         d = {"name": "m%d_%s" % (di, r.choice(("hits", "lat", "size"))), "type": r.choice(TYPES),
@@ -62,6 +81,12 @@ def generate(seed, tier):
 
 
 def shrink_candidates(s):
+    if s.get("arm") == "race":
+        if s["reps"] > 1:
+            yield dict(s, reps=1)
+        if s["nproc"] > 1:
+            yield dict(s, nproc=s["nproc"] - 1)
+        return
     for cand in common.drop_one(s["defs"]):
         if cand:
             yield dict(s, defs=cand)
@@ -75,7 +100,59 @@ def shrink_candidates(s):
             yield dict(s, defs=s["defs"][:di] + [dict(d, labels=cand)] + s["defs"][di + 1:])
 
 
+def _race(s, ch):
+    import os
+    import sys
+    from simkit import hostgen, host, world, shims, kernel, linetrace, seams
+    viol = []
+    info = {"calls": 0}
+
+    def main(k):
+        from deep.api.tracepoint.trigger import build_trigger
+        from deep.api.tracepoint.tracepoint_config import MetricDefinition
+        p = hostgen.start_program("simmetrace", prelude=False)
+        for ln in RACE_SRC.strip("\n").split("\n"):
+            p.lines.append(ln)
+        p.finish()
+        lines = [i + 1 for i, ln in enumerate(p.source.split("\n")) if ln.strip() == "probe()"]
+        specs = [{"name": "RaceMetric%d" % i, "kinds": ["metric"]} for i in range(s["nproc"])]
+        w = world.World(k, cfg={"NO_TRACE": True}, plugins=specs, python_plugin=False)
+        w.start()
+        k.settle()
+        args = {"fire_count": "-1", "fire_period": "-100000000", "snapshot": "no_collect"}
+        w.handler.new_config([
+            build_trigger("tpA", p.basename, lines[0], dict(args), [], [MetricDefinition("m_a", "COUNTER", expression="a")]),
+            build_trigger("tpB", p.basename, lines[1], dict(args), [], [MetricDefinition("m_b", "GAUGE", expression="b")])])
+        handler = w.handler
+        src = seams.SRC
+        tracer = linetrace.LineTracer(k, (os.path.join(src, "deep/processor"), os.path.join(src, "deep/config/config_service.py")))
+
+        def probe():
+            handler.trace_call(sys._getframe(1), "line", None)
+        g = p.load({"probe": probe})
+        tracer.install()
+        host.run_threads(k, [lambda: [g["fa"](i) for i in range(s["reps"])], lambda: [g["fb"](i) for i in range(s["reps"])]])
+        tracer.uninstall()
+        for i in range(s["nproc"]):
+            pname = "RaceMetric%d" % i
+            mine = sorted((c[2], c[4][0], c[4][5]) for c in w.sink.calls if c[1] == pname and c[2] in ("counter", "gauge"))
+            want = sorted([("counter", "m_a", float(j + 1)) for j in range(s["reps"])] +
+                          [("gauge", "m_b", float(j + 2)) for j in range(s["reps"])])
+            info["calls"] += len(mine)
+            if mine != want:
+                viol.append(V("race:processor-missed-report", "processor %d of %d got %s, expected %s (two threads hit two "
+                              "metric tracepoints at once)" % (i, s["nproc"], mine, want)))
+        w.deep.shutdown()
+        w.close()
+
+    k = common.run_in_kernel(ch, s["knobs"], main)
+    key = repr((s["nproc"], s["reps"], k.order_sig.hexdigest()[:10])) if info["calls"] else None
+    return common.result(k, viol, key=key)
+
+
 def execute(s, ch):
+    if s.get("arm") == "race":
+        return _race(s, ch)
     viol = []
     late = {}
 
